@@ -20,6 +20,7 @@ type VStr struct {
 	Bytes []Term // byte-level, concrete length
 	N     int    // declared length of an atom (0 = unknown)
 	Hexed bool   // the atom stands for the hex text of the identified bytes
+	HexNum bool  // hex numeral atom: id = 2*numeric value + spelling bit
 }
 type VStruct struct{ F []Value }
 type VArr struct{ E []Value }
